@@ -2,7 +2,7 @@ import Fabio.Basic
 /-!
 C13 — redirect routes answer from the request alone: executable model (core Lean only).
 
-Modelled code (the tree *with the repairs* of D08, D17, D18 and D27):
+Modelled code (the tree *with the repairs* of D08, D17, D17b, D17c, D17e, D18, D18b, D18c and D27):
 
 * `route/route.go` `addTarget`: the `redirect=<code>` option (`strconv.Atoi`, 300..399, else 0);
 * `route/target.go` `BuildRedirectURL`, statement by statement;
@@ -195,9 +195,10 @@ def stripPrefix (s p : Str) : Str := if hasPrefix s p then s.drop p.length else 
 
 /-! `(*Target).BuildRedirectURL(requestURL)`, one stage per statement of `target.go`. -/
 
-/-- `t.RedirectURL = &url.URL{Scheme, Host, Path: t.URL.Path, RawPath: t.URL.Path, RawQuery}` -/
+/-- `t.RedirectURL = &url.URL{Scheme, Host, Path: t.URL.Path, RawPath: t.URL.EscapedPath(), RawQuery}`
+(D17b repaired: the template's own encoding is kept) -/
 def stage1 (t : RTarget) : URL :=
-  { scheme := t.url.scheme, host := t.url.host, path := t.url.path, rawPath := t.url.path, rawQuery := t.url.rawQuery }
+  { scheme := t.url.scheme, host := t.url.host, path := t.url.path, rawPath := escapedPath t.url, rawQuery := t.url.rawQuery }
 
 /-- treat case of `$path` not separated with a `/` from host (D17 repaired: the raw path is set as well) -/
 def stage2 (u : URL) : URL :=
@@ -212,9 +213,11 @@ def stage3 (u : URL) : URL :=
 /-- the replacement texts: request path and raw path after strip and prepend -/
 def replacement (t : RTarget) (req : URL) : Str × Str :=
   let rp := req.path
-  let rr := if req.rawPath.isEmpty then req.path else req.rawPath
+  -- D17e repaired: `requestURL.EscapedPath()` (always a valid encoding) instead of the raw path as written
+  let rr := escapedPath req
   let (rp, rr) := if t.strip ≠ [] then (stripPrefix rp t.strip, stripPrefix rr t.strip) else (rp, rr)
-  if t.prepend ≠ [] then (t.prepend ++ rp, t.prepend ++ rr) else (rp, rr)
+  -- D17c repaired: the raw path gets the prepend value in its escaped form
+  if t.prepend ≠ [] then (t.prepend ++ rp, escapedPath { path := t.prepend } ++ rr) else (rp, rr)
 
 /-- remove strip path, insert passed request path, set query -/
 def stage4 (t : RTarget) (req : URL) (u : URL) : URL :=
@@ -224,8 +227,12 @@ def stage4 (t : RTarget) (req : URL) (u : URL) : URL :=
     if u.rawQuery.isEmpty && req.rawQuery ≠ [] then { u with rawQuery := req.rawQuery } else u
   else u
 
-/-- `if t.RedirectURL.Path == "" { t.RedirectURL.Path = "/" }` -/
-def stage5 (u : URL) : URL := if u.path.isEmpty then { u with path := slash } else u
+/-- the path of the redirect URL is made absolute (D18b repaired; before, only an empty path became `/`
+and `URL.String()` supplied the missing slash after the self-redirect comparison had been made) -/
+def stage5 (u : URL) : URL :=
+  if !hasPrefix u.path slash then
+    { u with path := slash ++ u.path, rawPath := if u.rawPath ≠ [] then slash ++ u.rawPath else u.rawPath }
+  else u
 
 /-- `$host` substitution -/
 def stage6 (req : URL) (u : URL) : URL :=
@@ -249,19 +256,19 @@ def selfRedirect (u : URL) (scheme : Str) (req : URL) : Bool :=
 
 /-- The loop of `Table.Lookup` over the matching hosts (the last one is the no-host fallback). `cands` holds,
 per host in order, what `t.lookup(h, path, …)` returned. The result is the target handed to the proxy with
-the redirect URL built for this request. `last` is the value `target` holds when the loop runs off its end:
-a redirect skipped on the *last* host stays selected (as coded). -/
-def lookupLoop (scheme : Str) (req : URL) : List (Option RTarget) → Option (RTarget × Option URL) → Option (RTarget × Option URL)
-  | [], last => last
-  | none :: rest, _ => lookupLoop scheme req rest none
-  | some t :: rest, _ =>
+the redirect URL built for this request. A skipped redirect is dropped (`target = nil` before `continue`:
+D18c repaired — before, a redirect skipped on the *last* host stayed selected and was answered). -/
+def lookupLoop (scheme : Str) (req : URL) : List (Option RTarget) → Option (RTarget × Option URL)
+  | [] => none
+  | none :: rest => lookupLoop scheme req rest
+  | some t :: rest =>
       if t.code ≠ 0 then
         let u := buildRedirectURL t req
-        if selfRedirect u scheme req then lookupLoop scheme req rest (some (t, some u)) else some (t, some u)
+        if selfRedirect u scheme req then lookupLoop scheme req rest else some (t, some u)
       else some (t, none)
 
 def lookup (scheme : Str) (req : URL) (cands : List (Option RTarget)) : Option (RTarget × Option URL) :=
-  lookupLoop scheme req cands none
+  lookupLoop scheme req cands
 
 /-- What the client of a redirect route sees: status and `Location`. `none`: not a redirect answer. -/
 def answer (scheme : Str) (req : URL) (cands : List (Option RTarget)) : Option (Int × Str) :=
